@@ -106,6 +106,30 @@ func propC15(ch core.Chooser, st *core.Stats) error {
 	}()
 	model := map[string]string{}
 	key := func(i int) string { return fmt.Sprintf("key%03d", i) }
+	reopen := func(when string) error {
+		if err := core.Safe(func() error { return db.Close() }); err != nil {
+			db = nil
+			return fmt.Errorf("%s: Close failed: %v", when, err)
+		}
+		db = nil
+		var err error
+		db, err = dbx.Open(env.Dir, cfg, env.FS)
+		if err != nil {
+			return fmt.Errorf("%s: reopen failed: %v", when, err)
+		}
+		st.Count("restarts", 1)
+		_, err = checkDirectory(env, db, when)
+		return err
+	}
+	// sessions that end without having written anything (the newest segment may be empty when
+	// it is closed and reopened): right after creation, and later as back-to-back restarts
+	if core.Pct(ch, "initial_empty_session", 30) {
+		ch.Note("initial session without writes")
+		if err := reopen("after an initial session without writes"); err != nil {
+			return err
+		}
+		st.Count("initial_empty_sessions", 1)
+	}
 	rounds := ch.Int("rounds", 3, core.Scale(30, 200))
 	removing, restartsBetween, lastRemovingRound := 0, 0, -1
 	restartSinceRemoving := false
@@ -220,19 +244,14 @@ func propC15(ch core.Chooser, st *core.Stats) error {
 			st.Count("backups", 1)
 		}
 		if core.Pct(ch, "restart", 25) {
-			if err := core.Safe(func() error { return db.Close() }); err != nil {
-				db = nil
-				return fmt.Errorf("round %d: Close failed: %v", r, err)
-			}
-			db = nil
-			db, err = dbx.Open(env.Dir, cfg, env.FS)
-			if err != nil {
-				return fmt.Errorf("round %d: reopen failed: %v", r, err)
+			if err := reopen(fmt.Sprintf("round %d after restart", r)); err != nil {
+				return err
 			}
 			restartSinceRemoving = true
-			st.Count("restarts", 1)
-			if _, err := checkDirectory(env, db, fmt.Sprintf("round %d after restart", r)); err != nil {
-				return err
+			if core.Pct(ch, "restart_twice", 20) {
+				if err := reopen(fmt.Sprintf("round %d after a second restart without writes", r)); err != nil {
+					return err
+				}
 			}
 		}
 		if r%8 == 7 || r == rounds-1 {
